@@ -259,7 +259,26 @@ func (c *composer) merge(n *SNode, keysOpt bool, inherited bool, seen map[string
 }
 
 func (c *composer) keyTypeAccepts(name, key string) bool {
+	return c.keyTypeAcceptsVia(name, key, nil)
+}
+
+func (c *composer) keyTypeAcceptsVia(name, key string, path []string) bool {
+	for _, p := range path {
+		if p == name {
+			return false // a list that leads back to a type being resolved adds nothing
+		}
+	}
 	t, ok := c.g.Types[name]
+	if ok && t.Kind == SRef && len(t.Rules) == 0 {
+		// the key type is a reference or a list of string types: union
+		c.feat["shortcut-key-type-is-a-reference"] = true
+		for _, n := range t.Names {
+			if c.keyTypeAcceptsVia(n, key, append(path, name)) {
+				return true
+			}
+		}
+		return false
+	}
 	if !ok || t.Kind != SLit || t.Lit != KString {
 		c.unspecified("key shortcut whose type is not a string type")
 		return false
